@@ -1,0 +1,121 @@
+//go:build verif
+// +build verif
+
+// Portable stand-in for the Sleeper/Waker API, compiled ONLY with the build tag verif.
+//
+// The real implementation (sleep_unsafe.go, commit_*.go, commit_amd64.s) relies on
+// go:linkname'd runtime internals and assembly that the pinned toolchain rejects, so no
+// package above pkg/sleep can be built or run. The verification machinery in /verif needs
+// to RUN tcp/udp/stack code when it replays counterexamples and demonstrations; this file
+// gives the same API with a mutex and a condition variable. Nothing is verified about it and
+// nothing is claimed for it (properties about Sleeper/Waker concern the real files).
+
+package sleep
+
+import "sync"
+
+var mu sync.Mutex
+
+// Sleeper allows a goroutine to sleep and receive wake up notifications from Wakers.
+type Sleeper struct {
+	cond   *sync.Cond
+	queue  []*Waker
+	wakers []*Waker
+}
+
+// Waker represents a source of wake-up notifications to be sent to sleepers.
+type Waker struct {
+	s        *Sleeper
+	asserted bool
+	queued   bool
+	id       int
+}
+
+func (s *Sleeper) init() {
+	if s.cond == nil {
+		s.cond = sync.NewCond(&mu)
+	}
+}
+
+// AddWaker associates the given waker to the sleeper.
+func (s *Sleeper) AddWaker(w *Waker, id int) {
+	mu.Lock()
+	defer mu.Unlock()
+	s.init()
+	w.id = id
+	w.s = s
+	s.wakers = append(s.wakers, w)
+	if w.asserted && !w.queued {
+		w.queued = true
+		s.queue = append(s.queue, w)
+		s.cond.Broadcast()
+	}
+}
+
+// Fetch fetches the next wake-up notification.
+func (s *Sleeper) Fetch(block bool) (id int, ok bool) {
+	mu.Lock()
+	defer mu.Unlock()
+	s.init()
+	for {
+		for len(s.queue) > 0 {
+			w := s.queue[0]
+			s.queue = s.queue[1:]
+			w.queued = false
+			if w.asserted {
+				w.asserted = false
+				return w.id, true
+			}
+		}
+		if !block {
+			return -1, false
+		}
+		s.cond.Wait()
+	}
+}
+
+// Done is used to indicate that the caller won't use this Sleeper anymore.
+func (s *Sleeper) Done() {
+	mu.Lock()
+	defer mu.Unlock()
+	for _, w := range s.wakers {
+		if w.s == s {
+			w.s = nil
+			w.queued = false
+		}
+	}
+	s.wakers = nil
+	s.queue = nil
+}
+
+// Assert moves the waker to an asserted state and wakes the sleeper up.
+func (w *Waker) Assert() {
+	mu.Lock()
+	defer mu.Unlock()
+	if w.asserted {
+		return
+	}
+	w.asserted = true
+	if s := w.s; s != nil && !w.queued {
+		w.queued = true
+		s.queue = append(s.queue, w)
+		s.init()
+		s.cond.Broadcast()
+	}
+}
+
+// Clear moves the waker to the not-asserted state; it reports whether it was asserted.
+func (w *Waker) Clear() bool {
+	mu.Lock()
+	defer mu.Unlock()
+	was := w.asserted
+	w.asserted = false
+	return was
+}
+
+// IsAsserted returns whether the waker is currently asserted.
+func (w *Waker) IsAsserted() bool {
+	mu.Lock()
+	defer mu.Unlock()
+	return w.asserted
+}
